@@ -371,12 +371,13 @@ def send_tx(
         elif addr_types[0] in ["multisig", "p2sh", "p2wsh", "p2sh-p2wsh"]:
             redeem_script = bytes.fromhex(datums[0])
 
-    total_available = int(sender_txoutset["total_amount"] * 1e8)
+    # amounts arrive as 8-decimal floats; round (not truncate) to the exact satoshi value
+    total_available = int(round(sender_txoutset["total_amount"] * 1e8))
     amount_to_send = int(send_fraction * total_available)
     total_amount = 0
     txins = []
     for utxo in sender_txoutset["unspents"]:
-        amount = utxo["amount"] * 1e8
+        amount = int(round(utxo["amount"] * 1e8))
         txid = bytes.fromhex(utxo["txid"])[::-1]
         vout = utxo["vout"]
         sender_scriptsig = b""
@@ -453,7 +454,7 @@ def send_tx(
                 bip143.witness_message(
                     txins,
                     utxo["vout"],
-                    int(utxo["amount"] * 1e8),
+                    int(round(utxo["amount"] * 1e8)),
                     scriptcode,
                     txouts,
                     sighash_flag=sighash_flag,
